@@ -19,7 +19,7 @@ from e5_locks import resolve_place
 
 
 def sk(t):
-    return re.sub(r'#\d+\.\d+', '', show(t))
+    return re.sub(r'#(?:i\d+:)?\d+\.\d+', '', show(t))
 
 
 BUILDER = 'yui_kh::kh::internal::v2::builder::TngComplexBuilder::<R>::'
@@ -209,7 +209,7 @@ def check_canon_cycles(facts, rep):
         rep.saw(b)
 
     def dk(t):
-        return re.sub(r'&mut _\d+', 'IT', re.sub(r'\^_ref__', '^', re.sub(r'#\d+\.\d+', '', show(t, -1000)))).replace('&', '').replace('*', '')
+        return re.sub(r'&mut _\d+', 'IT', re.sub(r'\^_ref__', '^', re.sub(r'#(?:i\d+:)?\d+\.\d+', '', show(t, -1000)))).replace('&', '').replace('*', '')
     # dots
     table = {}
     for p in SymEx(inner).run():
